@@ -26,6 +26,7 @@ ASSUMPTIONS = {"C16": ["the HAL simulator's waitForNotifierAlarm returns when th
 def shards(pid, tier, seed):
     if tier == "quick":
         return ([{"mode": "threaded", "n": 40} for _ in range(4)] + [{"mode": "threaded", "n": 12, "start_at": 2 ** 32 - 400000}]
+                + [{"mode": "threaded", "n": 1, "marathon": 70000}]        # one delay object that waits 70 000 times (23 min of a 50 Hz loop)
                 + [{"mode": "convert", "lo": 1000, "hi": 100000, "stride": 9, "offset": i} for i in range(2)])
     return ([{"mode": "threaded", "n": 1500} for _ in range(14)] + [{"mode": "threaded", "n": 200, "start_at": 2 ** 32 - 3000000}]
             + [{"mode": "threaded", "n": 1, "marathon": 70000}]        # one delay object that waits 70 000 times (23 min of a 50 Hz loop)
@@ -153,10 +154,23 @@ def run_threaded(acc, case):
     def alarms():
         return [c[2] for c in proxy.calls if c[0] == "alarm" and c[1] == handle]
     overruns = ontime = 0
+    seen = {"i": 0, "n": 0}
+
+    def n_waits():
+        # wait() calls on this handle logged so far (scanned incrementally: a delay object may wait 70 000 times)
+        calls = proxy.calls
+        n = len(calls)
+        for j in range(seen["i"], n):
+            c = calls[j]
+            if c[0] == "wait" and c[1] == handle:
+                seen["n"] += 1
+        seen["i"] = n
+        return seen["n"]
+
     for k, body in enumerate(bodies):
         e.advance(body)
         body_end = e.now()
-        n_wait_before = sum(1 for c in proxy.calls if c[0] == "wait" and c[1] == handle)
+        n_wait_before = n_waits()
         # the alarm this wait() will block on was programmed before the worker is released; it is read now, because
         # the worker re-programs the next one as soon as its wait returns
         al = proxy.alarms.get(handle)
@@ -173,7 +187,7 @@ def run_threaded(acc, case):
                 if done.acquire(blocking=False):
                     returned = True
                     break
-                if sum(1 for c in proxy.calls if c[0] == "wait" and c[1] == handle) > n_wait_before:
+                if n_waits() > n_wait_before:
                     break
                 time.sleep(0.0002)
             else:
@@ -330,7 +344,17 @@ def run_shard(spec):
             case["P"] = max(case["P"], 20000)
             acc.ev("clock-around-2^32us")
         r = run_threaded(acc, case)
-        if r is not None:
+        for _retry in range(2):
+            if r is None or not spec.get("marathon") or acc.violations:
+                break
+            acc.ev("marathon-restarted-after-lost-wakeup")       # the one long run is worth a second and third attempt
+            acc.extra.setdefault("marathon_restarts", []).append(r[1])
+            r = run_threaded(acc, case)
+        if r is not None and spec.get("marathon"):
+            # three attempts lost a wake-up somewhere in 70 000 waits (loaded machine): recorded, no verdict from this run
+            acc.ev("marathon-gave-no-verdict")
+            acc.extra.setdefault("inconclusive_cases", []).append(r[1])
+        elif r is not None:
             acc.ev("case-inconclusive")
             acc.extra.setdefault("inconclusive_cases", []).append(r[1])
         if i < 2:
